@@ -156,6 +156,134 @@ theorem binarySearch_track (keys : List Val) (v : Val) (h : Ok keys v false) (hn
     unfold binarySearch
     simp only [hemp, Bool.false_eq_true, if_false, hloop, hk, g1, g2, hkeq.1, hkeq.2]
 
+/-! ### the same on a descending column (`reverse=True`): the roles of the two neighbours are exchanged -/
+
+theorem bsLoop_track_rev (keys : List Val) (v : Val) (rev : Bool) (hrev : rev = true) (h : Ok keys v rev) (first last ns nl : Int)
+    (h0 : 0 ≤ first) (h1 : last < keys.length) (hfl : first ≤ last + 1)
+    (hns : ns = if last = (keys.length : Int) - 1 then (keys.length : Int) - 1 else last + 1) (hnl : nl = if first = 0 then 0 else first - 1)
+    (hinv : ∀ (j : Nat) k, keys[j]? = some k → (((j : Int) < first → Lside rev v k) ∧ (last < (j : Int) → Rside rev v k))) :
+    ∃ e ns' nl', bsLoop keys v rev first last ns nl = .ok (e, ns', nl') ∧
+      ((e = -1 ∧ ∃ f : Int, 0 ≤ f ∧ f ≤ keys.length ∧
+          (∀ (j : Nat) k, keys[j]? = some k → (((j : Int) < f → Lside rev v k) ∧ (f ≤ (j : Int) → Rside rev v k))) ∧
+          ns' = (if f = (keys.length : Int) then (keys.length : Int) - 1 else f) ∧ nl' = (if f = 0 then 0 else f - 1)) ∨
+       (0 ≤ e ∧ ns' = e ∧ nl' = e ∧ ∃ k, keys[e.toNat]? = some k ∧ BsEq k v)) := by
+  fun_induction bsLoop keys v rev first last ns nl with
+  | case1 first last ns nl hle mid hnone =>
+    exfalso
+    have : mid.toNat < keys.length := by omega
+    rw [List.getElem?_eq_none_iff] at hnone
+    omega
+  | case2 first last ns nl hle mid k hk lt gt hgt hlt left hleft ih =>
+    subst hrev
+    rw [pyGt_eq k v (h.nbk _ _ hk) h.nbv] at hgt
+    rw [pyLt_eq k v (h.nbk _ _ hk) h.nbv] at hlt
+    have hmid : 0 ≤ mid ∧ mid < keys.length := by constructor <;> omega
+    apply ih (by omega) h1 (by omega)
+    · simpa using hns
+    · have : ¬ (mid + 1 = 0) := by omega
+      simp [this]
+    · intro j kj hj
+      refine ⟨fun hjl => ?_, fun hjl => (hinv j kj hj).2 hjl⟩
+      have hL : Lside true v k := by
+        unfold Lside
+        simp only [if_true] at *
+        rw [hgt]; simp [left] at hleft; rw [hleft]
+      by_cases hjm : (j : Int) = mid
+      · have : j = mid.toNat := by omega
+        subst this
+        rw [hk] at hj; cases hj; exact hL
+      · exact h.monoL j mid.toNat kj k (by omega) hj hk hL
+  | case3 first last ns nl hle mid k hk lt gt hgt hlt left right hleft hright ih =>
+    subst hrev
+    rw [pyGt_eq k v (h.nbk _ _ hk) h.nbv] at hgt
+    rw [pyLt_eq k v (h.nbk _ _ hk) h.nbv] at hlt
+    have hmid : 0 ≤ mid ∧ mid < keys.length := by constructor <;> omega
+    apply ih h0 (by omega) (by omega)
+    · have : ¬ (mid - 1 = (keys.length : Int) - 1) := by omega
+      simp [this]
+    · simpa using hnl
+    · intro j kj hj
+      refine ⟨fun hjl => (hinv j kj hj).1 hjl, fun hjl => ?_⟩
+      have hR : Rside true v k := by
+        unfold Rside
+        simp only [if_true] at *
+        rw [hlt]; simp [right] at hright; rw [hright]
+      by_cases hjm : (j : Int) = mid
+      · have : j = mid.toNat := by omega
+        subst this
+        rw [hk] at hj; cases hj; exact hR
+      · exact h.monoR mid.toNat j k kj (by omega) hk hj hR
+  | case4 first last ns nl hle mid k hk lt gt hgt hlt left right hleft hright =>
+    subst hrev
+    rw [pyGt_eq k v (h.nbk _ _ hk) h.nbv] at hgt
+    rw [pyLt_eq k v (h.nbk _ _ hk) h.nbv] at hlt
+    have hmid : 0 ≤ mid ∧ mid < keys.length := by constructor <;> omega
+    refine ⟨mid, mid, mid, rfl, Or.inr ⟨hmid.1, rfl, rfl, k, hk, ?_⟩⟩
+    unfold BsEq
+    simp [left, right] at hleft hright
+    simp_all
+  | case5 first last ns nl hle mid k hk hno =>
+    exfalso
+    obtain ⟨⟨r1, e1⟩, ⟨r2, e2⟩⟩ := h.comp mid.toNat k hk
+    exact hno r1 r2 (by rw [pyLt_eq k v (h.nbk _ _ hk) h.nbv]; exact e1) (by rw [pyGt_eq k v (h.nbk _ _ hk) h.nbv]; exact e2)
+  | case6 first last ns nl hgt =>
+    refine ⟨-1, ns, nl, rfl, Or.inl ⟨rfl, first, h0, by omega, ?_, ?_, hnl⟩⟩
+    · intro j k hj
+      exact ⟨(hinv j k hj).1, fun hjf => (hinv j k hj).2 (by omega)⟩
+    · rw [hns]
+      have : first = last + 1 := by omega
+      split <;> split <;> omega
+
+/-- `_binary_search(..., reverse=True)` on a non-empty descending column: an equal key, or a cut `f` (keys before it larger, keys from
+it on smaller) with `next_smallest = f` (-1 when nothing is smaller) and `next_largest = f - 1` (-1 when nothing is larger) -/
+theorem binarySearch_track_rev (keys : List Val) (v : Val) (h : Ok keys v true) (hne : keys ≠ []) :
+    ∃ e ns nl, binarySearch keys v true = .ok (e, ns, nl) ∧
+      ((e = -1 ∧ ∃ f : Int, 0 ≤ f ∧ f ≤ keys.length ∧
+          (∀ (j : Nat) k, keys[j]? = some k → (((j : Int) < f → Lside true v k) ∧ (f ≤ (j : Int) → Rside true v k))) ∧
+          ns = (if f = (keys.length : Int) then -1 else f) ∧ nl = f - 1) ∨
+       (0 ≤ e ∧ ns = e ∧ nl = e ∧ ∃ k, keys[e.toNat]? = some k ∧ BsEq k v)) := by
+  have hlen : 0 < keys.length := List.length_pos_iff.mpr hne
+  have hemp : keys.isEmpty = false := by cases keys <;> simp_all
+  obtain ⟨e, ns', nl', hloop, hres⟩ :=
+    bsLoop_track_rev keys v true rfl h 0 ((keys.length : Int) - 1) ((keys.length : Int) - 1) 0 (by omega) (by omega) (by omega)
+      (by simp) (by simp)
+      (by
+        intro j k hj
+        have : j < keys.length := (List.getElem?_eq_some_iff.mp hj).1
+        exact ⟨fun hh => by omega, fun hh => by omega⟩)
+  rcases hres with ⟨he, f, hf0, hfl, hcut, hns, hnl⟩ | ⟨he0, hns, hnl, k, hk, hkeq⟩
+  · have hs1 : ns'.toNat < keys.length := by rw [hns]; split <;> omega
+    have hs2 : nl'.toNat < keys.length := by rw [hnl]; split <;> omega
+    have g1 := pyGt_eq keys[ns'.toNat] v (h.nbk _ _ (List.getElem?_eq_getElem hs1)) h.nbv
+    have g2 := pyLt_eq keys[nl'.toNat] v (h.nbk _ _ (List.getElem?_eq_getElem hs2)) h.nbv
+    have c1 := hcut ns'.toNat keys[ns'.toNat] (List.getElem?_eq_getElem hs1)
+    have c2 := hcut nl'.toNat keys[nl'.toNat] (List.getElem?_eq_getElem hs2)
+    unfold Lside Rside at c1 c2
+    simp only [if_true] at c1 c2
+    have e1 : bsLt v keys[ns'.toNat] = some (decide (f = (keys.length : Int))) := by
+      by_cases hf : f = (keys.length : Int)
+      · have : ((ns'.toNat : Nat) : Int) < f := by rw [hns, if_pos hf]; omega
+        rw [c1.1 this]; simp [hf]
+      · have : f ≤ ((ns'.toNat : Nat) : Int) := by rw [hns, if_neg hf]; omega
+        rw [bsLt_asymm _ _ (c1.2 this)]; simp [hf]
+    have e2 : bsLt keys[nl'.toNat] v = some (decide (f = 0)) := by
+      by_cases hf : f = 0
+      · have : f ≤ ((nl'.toNat : Nat) : Int) := by rw [hnl, if_pos hf]; omega
+        rw [c2.2 this]; simp [hf]
+      · have : ((nl'.toNat : Nat) : Int) < f := by rw [hnl, if_neg hf]; omega
+        rw [bsLt_asymm _ _ (c2.1 this)]; simp [hf]
+    refine ⟨e, if decide (f = (keys.length : Int)) then -1 else ns', if decide (f = 0) then -1 else nl', ?_, Or.inl ⟨he, f, hf0, hfl, hcut, ?_, ?_⟩⟩
+    · unfold binarySearch
+      simp only [hemp, Bool.false_eq_true, if_false, if_true, hloop, List.getElem?_eq_getElem hs1, List.getElem?_eq_getElem hs2, g1, g2, e1, e2]
+    · rw [hns]; by_cases hf : f = (keys.length : Int) <;> simp [hf]
+    · rw [hnl]; by_cases hf : f = 0 <;> simp [hf]
+  · rw [hns, hnl] at hloop
+    have g1 := pyGt_eq k v (h.nbk _ _ hk) h.nbv
+    have g2 := pyLt_eq k v (h.nbk _ _ hk) h.nbv
+    refine ⟨e, e, e, ?_, Or.inr ⟨he0, rfl, rfl, k, hk, hkeq⟩⟩
+    unfold binarySearch
+    simp only [hemp, Bool.false_eq_true, if_false, if_true, hloop, hk, g1, g2, hkeq.1, hkeq.2]
+
 /-- a key that equals the value stands where the value stands: what is larger than the key is larger than the value -/
 theorem bsEq_lt_transfer (a v b : Val) (h : BsEq a v) (hab : bsLt a b = some true) : bsLt v b = some true := by
   obtain ⟨h1, h2⟩ := h
